@@ -285,12 +285,25 @@ Shadow ==
                 B1(<<T("a")>>, "r", <<T("s")>>, <<>>), B1(<<T("b")>>, "r", <<T("s")>>, bb)>> \o Z, inc |-> <<>>, inc2 |-> <<>>] :
       n \in {"description", "depfile", "restat", "command"}, rb \in {<<>>, <<Bd("description", <<T("rule "), Var("out")>>)>>, <<Bd("depfile", <<Var("out"), T(".d")>>)>>},
       bb \in {<<>>, <<Bd("x", <<T("1")>>)>>, <<Bd("description", <<T("build")>>)>>}, Z \in {<<>>, <<Let("description", <<T("late")>>)>>} }
+(***************************************************************************)
+(* A rule whose pool is a variable reference: the pool of every statement   *)
+(* is the value the variable has where that statement stands (same file,    *)
+(* included file, subninja file), an unknown name is an error there.        *)
+(***************************************************************************)
+PoolVar ==
+  { [main |-> <<Pool("p", <<T("2")>>), Let("y", <<T("p")>>), Rule("r", <<Bd("command", <<T("c "), Var("out")>>), Bd("pool", <<Var("y")>>)>>),
+                B1(<<T("a")>>, "r", <<T("s")>>, <<>>)>> \o M \o <<B1(<<T("b")>>, "r", <<T("s")>>, bb)>> \o Z,
+     inc |-> <<Let("y", <<T(v2)>>), B1(<<T("c")>>, "r", <<T("s")>>, <<>>)>>, inc2 |-> <<>>] :
+      M \in {<<>>, <<Let("y", <<T("")>>)>>, <<Let("y", <<T("console")>>)>>, <<Let("y", <<T("nopool")>>)>>},
+      bb \in {<<>>, <<Bd("x", <<T("1")>>)>>, <<Bd("pool", <<T("")>>)>>},
+      Z \in {<<>>, <<Include("inc.ninja")>>, <<Subninja("inc.ninja")>>, <<Subninja("inc.ninja"), B1(<<T("d")>>, "r", <<T("s")>>, <<>>)>>},
+      v2 \in {"", "console", "nopool"} }
 SC == IF "SC" \in DOMAIN IOEnv THEN atoi(IOEnv.SC) ELSE 200
 Programs ==
   UNION { Structured(r) : r \in 1..K }
   \cup UNION { Valid(r) : r \in 1..(2 * K) }
   \cup (IF SC >= Cardinality(Scoping) THEN Scoping ELSE RandomSubset(SC, Scoping))
-  \cup Shadow
+  \cup Shadow \cup PoolVar
   \cup UNION { { [main |-> m, inc |-> i, inc2 |-> <<>>] : m \in RandomSubset(K, [1..n -> Forms]), i \in RandomSubset(1, [1..2 -> IncForms]) } : n \in 3..5 }
 FilesOf(p) == [f \in {"build.ninja", "inc.ninja", "inc2.ninja"} |-> IF f = "build.ninja" THEN p.main ELSE IF f = "inc.ninja" THEN p.inc ELSE p.inc2]
 
